@@ -5,7 +5,7 @@
    over ANY well-formed option table, from ANY parser state (settings so far,
    arguments collected so far) and with ANY following arguments.  Byte values:
    45 = '-', 61 = '=', 44 = ','. *)
-From PV Require Import Lib.Bytes Model.Getopt Gen.Options Spec.OptionsDoc Proofs.Getopt.
+From PV Require Import Lib.Bytes Model.Getopt Gen.Options Spec.OptionsDoc Proofs.Getopt Model.Logger Proofs.Logger.
 Open Scope N_scope.
 
 (* the option table regenerated from ParseCommandLine presents exactly the documented interface *)
@@ -149,3 +149,46 @@ Proof.
   intros j o' Hj Hne. do 17 (destruct j as [|j]; [try congruence; inversion Hj; subst; reflexivity|]).
   destruct j; discriminate.
 Qed.
+
+(* ================================================================== *)
+(* Part 2: the Logger machine, Model/Logger.v.  Events are what checks do to the
+   Logger (Diag, Explain, Autofix.Apply, SaveAutofixChanges, TechErrorf,
+   ShowSummary); l_emitted is the list of (level, file, linenos, message) tuples,
+   one per diagnostic line that Logf wrote. *)
+
+(* for ALL event lists and all option records that agree on ShowAutofix, Autofix and
+   Only -- whatever -e -s -g -q are -- the emitted diagnostic tuples, the counters,
+   explanationsAvailable / autofixAvailable and the exit status (with and without
+   -Werror) are equal *)
+Theorem C08_presentation_irrelevant : forall o1 o2 evs,
+  lo_show_autofix o1 = lo_show_autofix o2 /\ lo_autofix o1 = lo_autofix o2 /\ lo_only o1 = lo_only o2 ->
+  let a := log_run o1 evs in let b := log_run o2 evs in
+  l_emitted a = l_emitted b /\
+  l_errors a = l_errors b /\ l_warnings a = l_warnings b /\ l_notes a = l_notes b /\
+  l_expl_avail a = l_expl_avail b /\ l_fix_avail a = l_fix_avail b /\
+  forall werror, exit_status werror a = exit_status werror b.
+Proof. exact presentation_irrelevant. Qed.
+Print Assumptions C08_presentation_irrelevant.
+
+(* every tuple printed with --only S is printed by the unrestricted run.  With -f / -F
+   unconditionally; in the default mode under the audited assumption that two events
+   with the same duplicate-suppression key (file, linenos, message) carry the same
+   level ("equal message => equal level") *)
+Theorem C08_only_is_subset : forall o S evs,
+  (is_autofix o = true \/
+   forall e1 e2 d1 d2, In e1 evs -> In e2 evs -> ev_diag e1 = Some d1 -> ev_diag e2 = Some d2 ->
+     d_key d1 = d_key d2 -> d_tuple d1 = d_tuple d2) ->
+  incl (l_emitted (log_run (with_only o S) evs)) (l_emitted (log_run (with_only o []) evs)).
+Proof. exact only_is_subset. Qed.
+Print Assumptions C08_only_is_subset.
+
+(* the assumption is needed: the same message once as a warning (format not matching S)
+   and once as an error (format matching S) -- the unrestricted run prints only the warning *)
+Definition ex_line : line := mk_line 1 [102] 3 [[65; 10]].
+Definition ex_evs : list event :=
+  [ EvDiag ex_line LWarn [120] [109]; EvDiag ex_line LError [98; 97; 114] [109] ].
+Definition ex_opts : opts := mk_opts false false false false false false [].
+Example C08_only_subset_needs_equal_levels :
+  l_emitted (log_run (with_only ex_opts [[98; 97; 114]]) ex_evs) = [(LError, [102], [51], [109])] /\
+  l_emitted (log_run (with_only ex_opts []) ex_evs) = [(LWarn, [102], [51], [109])].
+Proof. split; vm_compute; reflexivity. Qed.
